@@ -214,7 +214,11 @@ def judge(ctx, traces):
     verdicts, stats = tlc.validate_batch("PrivsTrace", "PrivsTrace.cfg", clean, name="PrivsTrace_C20")
     ctx.add_traces(sum(len(t) for t in traces), stats)
     ndrift = 0
-    for t, (v, step) in zip(traces, verdicts):
+    # representative of a signature: prefer real processes over the fake kernel, a real drop over root -> root
+    order = sorted(range(len(traces)), key=lambda n: ({"server": 0, "real": 1, "fake": 2}[traces[n][0]["mode"]],
+                                                      traces[n][0]["case"]["user"] != "other", n))
+    for n in order:
+        t, (v, step) = traces[n], verdicts[n]
         if v == "ok":
             continue
         rec = t[step - 1] if 0 < step <= len(t) else t[-1]
@@ -260,7 +264,16 @@ def c20(ctx):
                  "initgroups": False, "worker_class": "sync"},
                 {"tag": "useronlyinit", "user": "nobody", "group": None, "uid": 65534, "gid": 0,
                  "initgroups": True, "worker_class": "gthread"},
+                {"tag": "claudeuser", "user": "claudeuser", "group": "nogroup", "uid": 1000, "gid": 65534,
+                 "initgroups": False, "worker_class": "sync"},
             ]
+            for wc in ("gevent", "eventlet"):
+                try:
+                    __import__(wc)
+                except Exception:   # noqa
+                    continue
+                servers.append({"tag": wc, "user": "www-data", "group": "33", "uid": 33, "gid": 33,
+                                "initgroups": False, "worker_class": wc})
         fs = ex.submit(call_driver, "server", servers, 900) if os.geteuid() == 0 else None
         traces = []
         # (a) fake kernel: the complete product
